@@ -39,11 +39,17 @@ def sz_instances(tier):
         M(S("[]", ["[<]C(C)(C)C(C)(C)[>]"], ["[<][H]", "[>][H]"], "[<]", None), "[<]O", name="no-prefix-quaternary"),
         M(S("[]", ["[<]C(C)(C)C(C)(C)[>]"], ["[<][H]", "[>]F"], "[<]", None), S("[>]", ["[<]CC[>]"], ["[<]Cl"], "[<]", None), "[<][H]", name="no-prefix-two-blocks"),
     ]
+    # a plain token spelled like a repeat unit of a later object; two blocks that share a monomer but not their (Mw, Mn) - these keep their own laws
+    own = [
+        M("CCO[>]", S("[>]", ["[<]CCO[>]"], [], "[<]", ("schulz_zimm", [90.0, 60.0])), "[<]C", name="prefix-spelled-like-the-unit"),
+        M("C[>]", S("[>]", ["[<]CC[>]"], [], "[<]", ("schulz_zimm", [60.0, 40.0])), S("[>]", ["[<]CC[>]"], [], "[<]", ("schulz_zimm", [200.0, 150.0])), "[<]O",
+          name="two-blocks-one-monomer-two-laws"),
+    ]
     out = []
-    for m in base + extra:
+    for m in base + extra + own:
         m2 = copy.deepcopy(m)
         for e in m2.elems:
-            if isinstance(e, Sto):
+            if isinstance(e, Sto) and m not in own:
                 e.dist = Dist("schulz_zimm", [90.0, 60.0])
         for t in m2.tokens():
             if hasattr(t, "_chem"):
